@@ -2,6 +2,7 @@ package node
 
 import (
 	"context"
+	"database/sql"
 	"fmt"
 	"math/big"
 	"time"
@@ -50,7 +51,6 @@ type vrtHeld struct {
 func VerifHolding() {
 	AveragePeriod = 3
 	AverageRequired = 1
-	d, db := vrtNode(false)
 	ctx := context.Background()
 	// executing heights, one per era (concrete: they are keys of table rows)
 	eras := []uint32{222275, 231625, 258800, 295195} // bank-limited per height | V4 pooled bank | 2.0 (no PEG conversions) | PIP-10 averages
@@ -59,33 +59,31 @@ func VerifHolding() {
 	last := c - gap                         // most recent rated height before c
 	A := vrt.KeyAddress(0, false)
 	src := fat2.PTickerUSD
-	dsts := []fat2.PTicker{fat2.PTickerXBT, fat2.PTickerPEG}
+	dsts := []fat2.PTicker{fat2.PTickerXBT, fat2.PTickerPEG, fat2.PTickerFCT, fat2.PTickerDCR}
+	if vrt.Param("alldst", 1) == 0 {
+		dsts = dsts[:2]
+	}
+	assets := []fat2.PTicker{fat2.PTickerUSD, fat2.PTickerXBT, fat2.PTickerPEG, fat2.PTickerFCT, fat2.PTickerDCR}
 	blockTime := int64(1600000000)
 	fixRates := vrt.Param("fixrates", 0) == 1 // every rate 1e8: the run is about ordering/bank allocation, not the formula
 
-	// ---- committed history: rates of the last rated block, balances, held batches
+	// ---- inputs: rates of the last rated block, balances, held batches, rates of block c
 	rLast := map[fat2.PTicker]uint64{}
-	for _, t := range []fat2.PTicker{fat2.PTickerUSD, fat2.PTickerXBT, fat2.PTickerPEG} {
+	bal := map[fat2.PTicker]uint64{}
+	rates := map[fat2.PTicker]uint64{}
+	for _, t := range assets {
 		if fixRates {
 			rLast[t] = 100000000
 		} else {
 			rLast[t] = vrt.URange("rateLast", 1, 1<<40)
 		}
-		if _, err := db.Exec("INSERT INTO pn_rate (height, token, value) VALUES ($1, $2, $3)", last, t.String(), rLast[t]); err != nil {
-			panic(err)
-		}
 	}
-	bal := map[fat2.PTicker]uint64{}
-	tx0, _ := db.Begin()
-	for _, t := range []fat2.PTicker{fat2.PTickerUSD, fat2.PTickerXBT, fat2.PTickerPEG} {
+	for _, t := range assets {
 		bal[t] = vrt.URange("bal", 0, vrtMaxBal/8)
-		vrtSetBalance(tx0, A, t, bal[t])
-	}
-	if err := tx0.Commit(); err != nil {
-		panic(err)
 	}
 	nHeld := 1 + vrt.Choose("nheld", vrt.Param("maxheld", 2))
 	var held []vrtHeld
+	var heldEntries []factom.Entry
 	for i := 0; i < nHeld; i++ {
 		// held at a height inside the window [last, c) or just before it (already considered earlier)
 		off := vrt.Choose("heldAt", int(gap)+1) // 0 => last-1 (outside), k>=1 => last+k-1
@@ -97,28 +95,126 @@ func VerifHolding() {
 		}
 		e := vrtSignedConversion(hv.hash, blockTime+int64(h)*600, hv.amt, src, hv.dst, false)
 		hv.hash = e.Hash
-		txh, _ := db.Begin()
-		if err := d.ApplyTransactionBlock(txh, vrtEBlock(h, blockTime+int64(h)*600, []factom.Entry{e})); err != nil {
-			panic("arrival block: " + err.Error())
-		}
-		if err := txh.Commit(); err != nil {
-			panic(err)
-		}
 		held = append(held, hv)
+		heldEntries = append(heldEntries, e)
 	}
-	// ---- block c: its own rates (as recorded by InsertRates before the holding pass)
-	rates := map[fat2.PTicker]uint64{}
-	tx, _ := db.Begin()
-	for _, t := range []fat2.PTicker{fat2.PTickerUSD, fat2.PTickerXBT, fat2.PTickerPEG} {
+	for _, t := range assets {
 		if fixRates {
 			rates[t] = 100000000
 		} else {
 			rates[t] = vrt.URange("rate", 0, 1<<40)
 		}
-		if _, err := tx.Exec("INSERT INTO pn_rate (height, token, value) VALUES ($1, $2, $3)", c, t.String(), rates[t]); err != nil {
+	}
+	// setup: the committed chain state before block c, then block c's own rate rows (as
+	// InsertRates records them before the holding pass), on a given database
+	setup := func(db *sql.DB) (*Pegnetd, *sql.Tx) {
+		d := vrtNodeOn(db)
+		for _, t := range assets {
+			if _, err := db.Exec("INSERT INTO pn_rate (height, token, value) VALUES ($1, $2, $3)", last, t.String(), rLast[t]); err != nil {
+				panic(err)
+			}
+		}
+		tx0, _ := db.Begin()
+		for _, t := range assets {
+			vrtSetBalance(tx0, A, t, bal[t])
+		}
+		if err := tx0.Commit(); err != nil {
 			panic(err)
 		}
+		for i, hv := range held {
+			txh, _ := db.Begin()
+			if err := d.ApplyTransactionBlock(txh, vrtEBlock(hv.height, blockTime+int64(hv.height)*600, []factom.Entry{heldEntries[i]})); err != nil {
+				panic("arrival block: " + err.Error())
+			}
+			if err := txh.Commit(); err != nil {
+				panic(err)
+			}
+		}
+		tx, err := db.Begin()
+		if err != nil {
+			panic(err)
+		}
+		for _, t := range assets {
+			if _, err := tx.Exec("INSERT INTO pn_rate (height, token, value) VALUES ($1, $2, $3)", c, t.String(), rates[t]); err != nil {
+				panic(err)
+			}
+		}
+		return d, tx
 	}
+	if vrt.Param("fault", 0) == 1 {
+		// ---- C10: one DB-API call of the holding pass fails once: the block fails, or nothing differs
+		dbR := vrt.NewFaultDB()
+		dR, txR := setup(dbR)
+		c0 := vrt.Monitor("dbcalls")
+		errR := dR.SyncBank(ctx, txR, c)
+		if errR == nil {
+			errR = dR.ApplyTransactionBatchesInHolding(ctx, txR, c, rates)
+		}
+		nCalls := vrt.Monitor("dbcalls") - c0
+		if errR != nil {
+			return
+		}
+		if cerr := txR.Commit(); cerr != nil {
+			panic(cerr)
+		}
+		dbF := vrt.NewFaultDB()
+		dF, txF := setup(dbF)
+		vrt.FaultAt(vrt.Monitor("dbcalls") + vrt.Choose("point", nCalls))
+		var errF error
+		died := false
+		func() {
+			// the averages routine deliberately panics on a database error: the process ends and is
+			// restarted, which retries the block (an allowed outcome: nothing is committed short)
+			defer func() {
+				if r := recover(); r != nil {
+					died = true
+				}
+			}()
+			errF = dF.SyncBank(ctx, txF, c)
+			if errF == nil {
+				errF = dF.ApplyTransactionBatchesInHolding(ctx, txF, c, rates)
+			}
+		}()
+		if died {
+			vrt.Cover("fault-ended-process")
+			return
+		}
+		if errF == nil {
+			errF = txF.Commit()
+		} else {
+			txF.Rollback()
+		}
+		if errF != nil {
+			// the sync loop rolls the block back and retries it with the same daemon
+			vrt.Cover("fault-failed-block")
+			tx2, err2 := dbF.Begin()
+			if err2 == nil {
+				// block c's rate rows were rolled back with the failed attempt
+				for _, t := range assets {
+					if _, err := tx2.Exec("INSERT INTO pn_rate (height, token, value) VALUES ($1, $2, $3)", c, t.String(), rates[t]); err != nil {
+						panic(err)
+					}
+				}
+				err2 = dF.SyncBank(ctx, tx2, c)
+			}
+			if err2 == nil {
+				err2 = dF.ApplyTransactionBatchesInHolding(ctx, tx2, c, rates)
+			}
+			if err2 == nil {
+				err2 = tx2.Commit()
+			}
+			vrt.Assert("C10.retry-after-statement-fault-succeeds", err2 == nil)
+			if err2 == nil {
+				vrt.Assert("C10.retry-after-statement-fault-reaches-the-fault-free-ledger", vrt.SameStore(vrt.Snapshot(dbF), vrt.Snapshot(dbR)))
+			}
+			return
+		}
+		vrt.Cover("fault-survived")
+		vrt.Assert("C10.statement-fault-fails-the-block-or-changes-nothing", vrt.SameStore(vrt.Snapshot(dbF), vrt.Snapshot(dbR)))
+		return
+	}
+	db := vrt.NewDB()
+	d, tx := setup(db)
 	// ---- specification ------------------------------------------------------------
 	// averages as of the last rated block: mean over the rated blocks of the window (only `last` here)
 	avg := rLast
@@ -199,7 +295,9 @@ func VerifHolding() {
 			want = -1
 		case rates[src] == 0 || rates[hv.dst] == 0:
 			want = -4
-		case c >= specOneWaySmall && hv.dst == fat2.PTickerPEG:
+		case c >= specOneWayFCT && hv.dst == fat2.PTickerFCT:
+			want = -3
+		case c >= specOneWaySmall && (hv.dst == fat2.PTickerPEG || vrtIsSmallCap(hv.dst)):
 			want = -5
 		}
 		if want < 0 {
@@ -261,7 +359,7 @@ func VerifHolding() {
 	if anyExec {
 		vrt.Cover("some-executed")
 	}
-	for _, t := range []fat2.PTicker{fat2.PTickerUSD, fat2.PTickerXBT, fat2.PTickerPEG} {
+	for _, t := range assets {
 		got := uint64(vrtBalance(tx, A, t))
 		vrt.Assert("C07.balances-follow-the-conversion-formula", t == fat2.PTickerPEG || got == expBal[t])
 		vrt.Assert("C16.peg-created-per-bank-rule", t != fat2.PTickerPEG || got == expBal[t])
